@@ -298,6 +298,7 @@ pub fn replay(path: &str) -> i32 {
         }
         "c17" => c17_19_20::eval_c17(&st),
         "c10-duals" => c10_11::eval_dual_orientation(&st),
+        "c10-ties" => c05::eval_near_ties(&st),
         "c14" => c14_15::eval_c14(&st),
         "c15" => c14_15::eval_c15(&st),
         "c07" => match get("mask") {
